@@ -5,6 +5,7 @@ package modules
 import (
 	"context"
 	"sync/atomic"
+	"time"
 
 	rt "github.com/safing/portbase/zz_verifrt"
 )
@@ -80,6 +81,9 @@ func VerifC05_StopProtocol() {
 	rt.SchedYieldOnly(false)
 	SetStdErrReporting(false)
 	c05Reset()
+	// natively (replay) a lost completion must show up as a hang, not as a
+	// silent one-minute timeout
+	moduleStopTimeout = time.Hour
 	var order []string
 	var m *Module
 	stopFn := func() error {
@@ -102,15 +106,15 @@ func VerifC05_StopProtocol() {
 
 	// running work items of symbolic kind
 	items := rt.Len("items", 0, 2)
-	running := 0
-	finished := 0
+	stopCalled := false
+	var beganBeforeStop, returned [2]bool
 	for i := 0; i < items; i++ {
+		i := i
 		body := func(ctx context.Context) error {
-			running++
+			beganBeforeStop[i] = !stopCalled
 			<-ctx.Done() // runs until the module context is cancelled
 			rt.Yield()
-			running--
-			finished++
+			returned[i] = true
 			return nil
 		}
 		switch rt.Choice("kind"+string(rune('0'+i)), 3) {
@@ -122,24 +126,26 @@ func VerifC05_StopProtocol() {
 			m.StartHighPriorityMicroTask("mt", body)
 		}
 	}
-	// let the items start
+	// let the items start (or not: every choice is explored)
 	for i := 0; i < items; i++ {
 		rt.Yield()
 	}
-	started := running
 
 	reports := make(chan *report)
+	stopCalled = true
 	m.stop(reports)
 	rep := <-reports
-	// the report arrives only after the stop routine and every item returned
+	// the report arrives only after the stop routine and every item that was
+	// running when the stop began has returned
 	rt.Assert(len(order) == 2, "protocol/stopfn-ran-once-and-returned")
-	rt.Assert(running == 0, "protocol/no-item-running-at-report")
-	rt.Assert(finished == started, "protocol/every-started-item-returned")
+	for i := 0; i < items; i++ {
+		if beganBeforeStop[i] {
+			rt.Assert(returned[i], "protocol/running-item-returned-before-report")
+		}
+	}
 	rt.Assert(m.Status() == StatusOffline, "protocol/offline-at-report")
 	rt.Assert(rep.module == m, "protocol/report-names-module")
 	rt.Assert(dep.readyToStop() == statusReady, "protocol/dependency-may-stop-afterwards")
-	rt.Assert(atomic.LoadInt32(m.workerCnt) == 0, "protocol/worker-counter-zero")
-	rt.Assert(atomic.LoadInt32(m.microTaskCnt) == 0, "protocol/microtask-counter-zero")
 
 	// work on a stopped module
 	t := m.NewTask("late", func(context.Context, *Task) error { return nil })
